@@ -3,6 +3,7 @@ From Coq.Strings Require Import Byte String.
 From Coq Require Import List Arith NArith Bool.
 Import ListNotations.
 From V Require Import lib.Bytes lib.Sexp model.Ast model.Gen model.SourceMap spec.Denote model.IrFrag model.IrFragPrint model.IrFragEnv.
+From V Require spec.SrcText model.SrcTextParse.
 Require Extraction.
 Require Import ExtrOcamlBasic.
 
@@ -100,6 +101,9 @@ Definition dispatch (f : bytes) (a : list bytes) : list bytes :=
     (* args: element name.  reply: block / void as spec/Denote.v classifies the name, block / void as the generator model (model/Gen.v)
        does - the harness compares them with the live parser's IsBlockElement / IsVoidElement for every name of the vocabulary *)
     [b2 (Denote.block_name (arg 0 a)); b2 (Denote.void_name (arg 0 a)); b2 (Gen.is_block_name (arg 0 a)); b2 (Gen.is_void_name (arg 0 a))]
+  else if isf f "srctext" then
+    (* args: the content T of `<p>T</p>`.  reply: in the fragment?, guard, document by model/SrcTextParse.v, document by spec/SrcText.v *)
+    [b2 (SrcTextParse.in_frag (arg 0 a)); b2 (SrcTextParse.no_byte_space_lead (arg 0 a)); SrcTextParse.doc_code (arg 0 a); SrcText.doc_spec (arg 0 a)]
   else [bs "?"].
 
 Extraction "model.ml" dispatch.
